@@ -38,6 +38,8 @@ func init() {
 		MinNontrivial: tierN(1500, 20000),
 		Required:      []string{"overlapping_pairs_same_expr", "op:select", "op:select-abandoned", "op:evaluate", "op:compile", "op:regexp"},
 		Families: []Family{
+			// (first: the first case a worker process executes must be the first use of the engine in that process)
+			{Name: "coldstart", N: func(string) int { return 64 }, Run: c05ColdStart},
 			witnessFamily("C05"),
 			{Name: "rounds", N: tierN(4000, 150000), Run: c05Round},
 		},
@@ -175,7 +177,7 @@ func c05Expr(g *xgen.G, env *xgen.Env) string {
 		"substring(., 2, 3)", "ends-with(., '0')", "name(//*[3])", "number(.) * 2", "floor(sum(//@id[number(.) = number(.)]))", "//b[contains(., '1') or @k]",
 		// positional predicates on non-first steps (merge rewrite), name functions on prefixed nodes, non-literal regex arguments
 		"/*/*[2]", "//a/b[last()]", "*/*[position() = 2]", "/*/*/*[1]", "//*/*[last() - 1]", "//c/*[2][@id]",
-		"name()", "name(*)", "name(//*[2])", "concat(name(), '|', local-name(*), '|', name(..))", "//*[name() = name(..)]", "string-join(//@*, name())",
+		"name()", "name(*)", "name(/r/*[2])", "concat(name(), '|', local-name(*), '|', name(..))", "//*[name() = name(..)]", "string-join(//@*, name())",
 		"replace(., string(@id), string(@k))", "replace(string(*), concat(@id, ''), name())", "matches(., string(@k))", "//*[matches(., concat('^', @id))]",
 		// patterns built at evaluation time that do NOT compile (the complaint is deliberate; whatever remembers it is shared)
 		"matches(., concat('[', @id))", "replace(., concat('(', name()), 'x')", "//*[matches(., concat(@id, '**'))]", "matches(string(.), concat('a{', count(*), ',1}'))", "replace(., concat('\\', ''), '-')",
@@ -432,4 +434,127 @@ func splitmix64(x uint64) uint64 {
 	x = (x ^ (x >> 30)) * 0xbf58476d1ce4e5b9
 	x = (x ^ (x >> 27)) * 0x94d049bb133111eb
 	return x ^ (x >> 31)
+}
+
+// c05ColdStart: the FIRST thing a worker process does with the engine. Everything else in this check warms the
+// package up sequentially (solo digests, witnesses) before goroutines meet, so state that is initialised lazily -
+// a table built on first use, a pool, a cache, a sync-less "once" - is only ever raced on here: eight goroutines
+// step through a battery of expressions in lock-step, so the first use of every facility (each comparison operator,
+// arithmetic, every function, regular expressions, unions, positional predicates, Compile itself) happens in all of
+// them at once. Expected values come from the reference (no engine call before the goroutines start).
+var c05Cold = []string{"1 = 1", "a != 'x'", "//b < 3", "2 <= 2", "//b > 3", "3 >= count(//a)", "1 + 2 * 3 - 4 div 2", "7 mod 3", "-(1)", "//a | //b", "//a[2]", "//a[last()]", "//*[position() = 1]", "(//a)[1]", "//a/..",
+	"//b/ancestor::*", "//c/preceding::b", "//a/following-sibling::*", "count(//node())", "sum(//b)", "string(//a)", "concat('x', //b, 'y')", "contains(//a, '1')", "starts-with('abc', 'a')", "ends-with('abc', 'c')",
+	"substring('hello', 2, 3)", "substring-before('a-b', '-')", "substring-after('a-b', '-')", "string-length('abc')", "normalize-space('  a  b ')", "translate('abc', 'ab', 'AB')", "lower-case('ABC')", "string-join(//b, ',')",
+	"not(//zz)", "boolean(//a)", "true() and false()", "false() or true()", "number('12')", "floor(2.5)", "ceiling(2.5)", "name(/r/*[2])", "local-name(//@*)", "matches('abc', '^a.c$')", "replace('a-b', '(a)-(b)', '$2$1')",
+	"reverse(//a)", "//a[@id = '1']", "//a[b = 10]", "//*[not(*)]", "//@id", "//text()", "//comment()", "/", "//a[b][1]", "//a[contains(., '1') or @k]", "(//b)[2]", "//a/(b, c)"}
+
+var c05ColdDoc = xdoc.MustParseXML(`<r><a id="1"><b>10</b><b>7</b><c>t</c></a><a id="2" k="x"><b>1</b><!--n--></a><c>5</c></r>`, false)
+var c05ColdDone int32
+
+func c05ColdStart(c *Case) {
+	first := atomic.CompareAndSwapInt32(&c05ColdDone, 0, 1)
+	if first {
+		c.Count("coldstart:first-engine-use-of-the-process")
+	} else {
+		c.Count("coldstart:warm")
+	}
+	d := c05ColdDoc
+	want := make([]string, len(c05Cold))
+	for i, s := range c05Cold {
+		v, oof := xref.SafeEval(mustParse(s), xref.NewCtx(d.Root))
+		if oof != "" {
+			panic("C05 coldstart: reference: " + s + ": " + oof)
+		}
+		if ns, isNS := v.(xref.NodeSet); isNS {
+			var sb strings.Builder
+			for _, n := range xref.SortUniq(append(xref.NodeSet(nil), ns...)) {
+				fmt.Fprintf(&sb, "%d ", n.Ord)
+			}
+			want[i] = "set " + sb.String()
+		} else {
+			want[i] = fmtValue(v)
+		}
+	}
+	const ng = 8
+	got := make([][]string, ng)
+	var wg sync.WaitGroup
+	var arrived int64
+	for g := 0; g < ng; g++ {
+		got[g] = make([]string, len(c05Cold))
+		wg.Add(1)
+		go func(g int) {
+			defer wg.Done()
+			for i, s := range c05Cold {
+				// lock-step: wait until every goroutine has finished expression i-1
+				atomic.AddInt64(&arrived, 1)
+				for atomic.LoadInt64(&arrived) < int64(ng*(i+1)) {
+					runtime.Gosched()
+				}
+				got[g][i] = func() (out string) {
+					defer func() {
+						if x := recover(); x != nil {
+							out = fmt.Sprintf("PANIC(%v)", x)
+						}
+					}()
+					ce, err := xpath.Compile(s)
+					if err != nil {
+						return "COMPILE-ERROR " + err.Error()
+					}
+					switch v := ce.Evaluate(xdoc.NewNav(d.Root, nil)).(type) {
+					case *xpath.NodeIterator:
+						seen := map[int]bool{}
+						var ords []int
+						for v.MoveNext() {
+							if o := xdoc.NodeOf(v.Current()).Ord; !seen[o] {
+								seen[o] = true
+								ords = append(ords, o)
+							}
+						}
+						sort.Ints(ords)
+						var sb strings.Builder
+						for _, o := range ords {
+							fmt.Fprintf(&sb, "%d ", o)
+						}
+						return "set " + sb.String()
+					case bool:
+						return fmt.Sprintf("bool(%v)", v)
+					case string:
+						return fmt.Sprintf("string(%q)", v)
+					case float64:
+						return fmt.Sprintf("number(%v)", v)
+					default:
+						return fmt.Sprintf("%T", v)
+					}
+				}()
+			}
+		}(g)
+	}
+	wg.Wait()
+	c.Rep.Evals += int64(ng * len(c05Cold))
+	for g := 0; g < ng; g++ {
+		for i := range c05Cold {
+			if got[g][i] != want[i] {
+				c.Violation("CONCURRENT-RESULT-DIFFERS-FROM-SOLO", map[string]interface{}{"expr": c05Cold[i], "operation": "first use of the engine in this process, by 8 goroutines in lock-step", "goroutine": g, "goroutines": ng,
+					"concurrent": got[g][i], "solo": want[i], "doc": d.XML(), "first_engine_use_of_the_process": first})
+				return
+			}
+		}
+	}
+	if blocks := raceBlocks(newRaceReports()); len(blocks) > 0 {
+		seen := map[string]bool{}
+		for _, b := range blocks {
+			sg := raceSignature(b)
+			if seen[sg] {
+				continue
+			}
+			seen[sg] = true
+			if len(b) > 5000 {
+				b = b[:5000]
+			}
+			c.Violation("DATA-RACE", map[string]interface{}{"entry_points": sg, "report": b, "operation": "first use of the engine in this process, by 8 goroutines in lock-step", "first_engine_use_of_the_process": first})
+		}
+		return
+	}
+	c.Nontrivial(fmt.Sprintf("coldstart|%d", c.Index))
+	c.Sample(map[string]interface{}{"family": "coldstart", "expressions": len(c05Cold), "goroutines": ng, "first_engine_use_of_the_process": first})
 }
